@@ -315,7 +315,7 @@ def run(ctx):
             sites.append(s)
     assign_keys(prog, sites, "c14.panic")    # same keys as C14 (shared exception table)
     ctx.floor("c13.panic", "may-panic sites in the BVH code", len(sites), 15)
-    report_sites(ctx, "c14.panic", sites, C14_EXCEPTIONS, {fid for fid in seen if bvh(prog.fns[fid])})
+    report_sites(ctx, "c14.panic", sites, C14_EXCEPTIONS, {fid: par for fid, par in seen.items() if bvh(prog.fns[fid])})
     # construction-site shape (support of the BVH protocol exceptions)
     for b, i, s in gen.body.statements():
         if s["s"] == "assign" and s["rv"]["r"] == "agg" and s["rv"].get("adt", "").endswith("TreeElement"):
